@@ -252,12 +252,15 @@ def run(res, tier):
     # ------------------------------------------------------------------------------------------- UNIQUE-AGREE
     res.rule('UNIQUE-AGREE', 'the literal-lookup fast path of the traversal is selected only when every matcher at this level is classified unique (or list of unique values) and it looks the child up by the unescaped pattern', floor=3)
     f = fx.fn1(SRS + '::NodePathMatcher::DoTraversalAux')
-    lookups = P.calls(f, r'::DoDirectChildLookup$')
-    # the "some matcher at this level has wildcards" flag: the bool local whose false value dominates the direct lookups and which is set to true somewhere (whatever it is called)
+    NPM = r'^muscle::StorageReflectSession::NodePathMatcher::'
+    # the direct lookups may sit in DoTraversalAux itself or in a helper it was split into (msa/ip.py)
+    lookups_ip = [(g_, c) for g_ in IP.scope(fx, f, NPM) if g_.q != SRS + '::NodePathMatcher::DoDirectChildLookup' for c in P.calls(g_, r'::DoDirectChildLookup$')]
+    lookups = [c for (_, c) in lookups_ip]
+    # the "some matcher at this level has wildcards" flag: the bool local of DoTraversalAux whose false value dominates the direct lookups and which is set to true somewhere (whatever it is called)
     fd = None
     flagsets = []
-    if lookups:
-        for (cn, t) in G.atoms_at(f, lookups[0]):
+    if lookups_ip:
+        for (cn, t) in IP.atoms_at_ip(fx, f, lookups_ip[0][0], lookups_ip[0][1], NPM):
             if cn['k'] == 'DeclRefExpr' and cn.get('d') is not None and not t and 'bool' in cn.type():
                 sets = [n for n in f.walk() if n['k'] == 'BinaryOperator' and n.get('op') == '=' and A.strip_casts(n['ch'][0]).get('d') == cn['d'] and n['ch'][1].get('v') == 1]
                 if sets:
@@ -265,9 +268,8 @@ def run(res, tier):
     if not flagsets or len(lookups) < 2:
         raise AnalysisBroken('DoTraversalAux: wildcard flag assignment / direct lookups not found')
     okg = True
-    for l in lookups:
-        gs = [(f.nodes[c], t) for (c, t) in C.guards_of_block(f, P.pos_of(f, l)[0])]
-        if not any(A.strip_casts(cn).get('d') == fd and not t for (cn, t) in gs):
+    for (g_, l) in lookups_ip:
+        if not any(A.strip_casts(cn).get('d') == fd and not t for (cn, t) in IP.atoms_at_ip(fx, f, g_, l, NPM)):
             okg = False
     res.ob('UNIQUE-AGREE', f.where(lookups[0]), 'every DoDirectChildLookup call is under parsersHaveWildcards == false', okg, function=f.q, key='UNIQUE-AGREE|%s|lookup-guard' % f.q,
            message='the literal child lookup is used although some matcher at this level has wildcards: nodes that match only by pattern are skipped')
@@ -323,20 +325,26 @@ def run(res, tier):
     # ---- ONCE (b): the de-duplication table of the direct-lookup traversal spans all patterns of the Message
     from msa import cfg as C_
     f = fx.fn1(SRS + '::NodePathMatcher::DoTraversalAux')
-    tabs = [v for v in f.walk() if v['k'] == 'VarDecl' and 'Hashtable<muscle::DataNode *' in v.type()]
     used = []
-    for v in tabs:
-        ms = set((c.get('q') or '').split('::')[-1] for c in f.walk() if c['k'] == 'CXXMemberCallExpr' and c.receiver() is not None and A.strip_casts(c.receiver()).get('d') == v['d'])
-        passed = [c for c in f.walk() if c.is_call() and any(A.strip_casts(a).get('d') == v['d'] for a in c.args())]      # handed (by reference) to DoDirectChildLookup, which tests and fills it
-        if (ms & set(['ContainsKey', 'Get', 'GetWithDefault']) and ms & set(['PutWithDefault', 'Put'])) or passed:
-            used.append(v)
+    for g_ in IP.scope(fx, f, NPM):
+        if g_.q == SRS + '::NodePathMatcher::DoDirectChildLookup':
+            continue
+        for v in (v for v in g_.walk() if v['k'] == 'VarDecl' and 'Hashtable<muscle::DataNode *' in v.type()):
+            ms = set((c.get('q') or '').split('::')[-1] for c in g_.walk() if c['k'] == 'CXXMemberCallExpr' and c.receiver() is not None and A.strip_casts(c.receiver()).get('d') == v['d'])
+            passed = [c for c in g_.walk() if c.is_call() and any(A.strip_casts(a).get('d') == v['d'] for a in c.args())]      # handed (by reference) to DoDirectChildLookup, which tests and fills it
+            if (ms & set(['ContainsKey', 'Get', 'GetWithDefault']) and ms & set(['PutWithDefault', 'Put'])) or passed:
+                used.append((g_, v))
     if not used:
         raise AnalysisBroken('ONCE: the already-visited table of DoTraversalAux was not found')
-    loops = C_.natural_loops(f)
-    for v in used:
-        vp = f.pos(v['i'])
-        inloop = vp is not None and any(vp[0] in body for (h, body) in loops)
-        res.ob('ONCE', f.where(v), 'DoTraversalAux: the already-visited table `%s` is declared outside every loop (one table for all patterns of the Message)' % v.get('n'), not inloop, function=f.q,
+    for (g_, v) in used:
+        vp = g_.pos(v['i'])
+        inloop = vp is not None and any(vp[0] in body for (h, body) in C_.natural_loops(g_))
+        # a helper that declares the table must itself be called outside every loop
+        if g_ is not f:
+            for (h_, c_) in IP.call_sites_of(fx, g_, NPM):
+                cp = P.pos_of(h_, c_)
+                inloop = inloop or (cp is not None and any(cp[0] in body for (hh, body) in C_.natural_loops(h_)))
+        res.ob('ONCE', g_.where(v), 'DoTraversalAux: the already-visited table `%s` is declared outside every loop (one table for all patterns of the Message)' % v.get('n'), not inloop, function=f.q,
                key='ONCE|%s|dedupe-scope' % f.q,
                message='DoTraversalAux: the already-visited table `%s` is re-created inside a loop: a child named by two patterns of the same Message is traversed once per pattern, so its owner '
                        'receives the Message more than once' % v.get('n'))
